@@ -60,6 +60,7 @@ type world struct {
 	writers int
 	readers int
 	stash   []func() // release functions kept for a later repeated release
+	shared  map[bool]sync.Locker
 }
 
 func (w *world) excl(write bool) bool { return !w.rw || write }
@@ -232,6 +233,14 @@ func (w *world) opLocker(a *act) {
 	write := !w.rw || c.S.PlanP(450)
 	c.Descf("actor %d: Locker(write=%v).Lock/Unlock", a.id, write)
 	l := w.m.Locker(write)
+	if c.S.PlanP(350) {
+		// one sync.Locker shared by several goroutines (each Lock is paired with one Unlock)
+		if w.shared[write] == nil {
+			w.shared[write] = l
+		}
+		l = w.shared[write]
+		c.S.Count("probe:shared-locker")
+	}
 	a.invoke = c.S.Steps()
 	a.cancel = nil
 	a.cancelReq = 0
@@ -353,7 +362,7 @@ func (w *world) probes(final bool) {
 }
 
 func run(c *core.Ctx) {
-	w := &world{c: c}
+	w := &world{c: c, shared: map[bool]sync.Locker{}}
 	c.PanicOracle = "C01.I0.panic"
 	w.rw = c.S.PlanP(600)
 	if w.rw {
